@@ -34,7 +34,7 @@ def int2ba(i, /, length=None, endian=None, signed=False):
         if i < 0 or i >= (1 << n):
             raise OverflowError(f"unsigned integer not in range(0, {1 << n})")
     with NoTracing():
-        return bitarray._mk(n, C.from_int(C.ival(i), n))
+        return bitarray._mk(n, C.from_int(C.ival(i), n, bool(signed)))
 
 
 def ba2int(a, /, signed=False):
